@@ -73,6 +73,11 @@ class UpdateHandler(MessageHandler):
 
         Stores all NLRIs in the incoming RIB cache.
         """
+        if getattr(message, 'IS_EOR', False) is True:
+            # an End-of-RIB marker is an UPDATE (same TYPE) which carries no route and has no parsed data:
+            # reading .data raised AttributeError and every session was reset when its peer sent the marker
+            self._number += 1
+            return
         update = cast(Update, message)
         parsed = update.data  # Already parsed by unpack_message
         self._number += 1
@@ -110,6 +115,11 @@ class UpdateHandler(MessageHandler):
 
         Same logic as sync - no async I/O needed for inbound processing.
         """
+        if getattr(message, 'IS_EOR', False) is True:
+            # an End-of-RIB marker is an UPDATE (same TYPE) which carries no route and has no parsed data:
+            # reading .data raised AttributeError and every session was reset when its peer sent the marker
+            self._number += 1
+            return
         update = cast(Update, message)
         parsed = update.data  # Already parsed by unpack_message
         self._number += 1
